@@ -205,4 +205,25 @@ def refBlock (a : List String) : List String := ["begin 2"] ++ a ++ dumpB ++ ["R
 #guard has (judge refCase (["restarted 50"] ++ block1 ++ ["begin 2"] ++ dumpA1 ++ dumpB ++ ["R f:%61 \"f-9\"", "end 2"] ++
   block2 dumpA2 "R f:%61 \"f-0\"")) "string-case-unreachable"
 
+/-! the include of an (unsaved) PARENT is shadowed: the child's binary was laid out for the parent built from the old file -/
+def pshadowCase (extra : List String) : List String :=
+  ["clean /c17/w/t", "file /include/s.h 00", "mtime /include/s.h 90", "file /c17/w/t/b.c 00", "mtime /c17/w/t/b.c 95",
+   "prog c17/w/t/b.c save=0 inc=!c17/w/t/s.h,include/s.h inh=- ssw=0", "incsearch c17/w/t/b.c c17/w/t/s.h include/s.h",
+   "file /c17/w/t/a.c 00", "mtime /c17/w/t/a.c 100", "prog c17/w/t/a.c save=1 inc=- inh=c17/w/t/b.c ssw=0",
+   "mtime /simul_efun.c 50", "restart c17/w/t/a c17/w/t/b", "now 110", "reload c17/w/t/a c17/w/t/b"] ++ extra ++
+  ["now 130", "reload c17/w/t/a c17/w/t/b"]
+def pshadowTrace (last : String) : List String :=
+  ["restarted 50", "begin 1", "lb c17/w/t/a.c stale", "lb c17/w/t/b.c stale", "lb c17/w/t/a.c stale", "sv c17/w/t/a.c 110 inc=-", "end 1",
+   "begin 2", "lb c17/w/t/a.c needs c17/w/t/b.c", "lb c17/w/t/b.c stale", last, "end 2"]
+#guard judge (pshadowCase []) (pshadowTrace "lb c17/w/t/a.c use") == []
+#guard has (judge (pshadowCase ["file /c17/w/t/s.h 00", "mtime /c17/w/t/s.h 80"]) (pshadowTrace "lb c17/w/t/a.c use"))
+  "stale-binary-used c17/w/t/a.c dep=include-of-inherited-shadowed-by:c17/w/t/s.h:c17/w/t/b.c"
+#guard judge (pshadowCase ["file /c17/w/t/s.h 00", "mtime /c17/w/t/s.h 80"]) (pshadowTrace "lb c17/w/t/a.c stale") == []
+
+/-! a binary copied to another program's place is foreign there; copied back to its own place it is the genuine one -/
+#guard has (judge (mkCase ["copybin c17/w/t/b.c c17/w/t/a.c"]) (["restarted 50"] ++ block1 ++ ["copybin c17/w/t/b.c c17/w/t/a.c"] ++
+  block2 dumpA2 "R f:%61 \"f-0\"")) "foreign-binary-used c17/w/t/a.c"
+#guard !has (judge (mkCase ["copybin c17/w/t/b.c c17/w/t/a.c", "copybin c17/w/t/a.c c17/w/t/b.c"]) (["restarted 50"] ++ block1 ++
+  ["copybin c17/w/t/b.c c17/w/t/a.c", "copybin c17/w/t/a.c c17/w/t/b.c"] ++ block2 dumpA2 "R f:%61 \"f-0\"")) "foreign-binary-used c17/w/t/b.c"
+
 end NV.C17.SpecTests
